@@ -163,6 +163,11 @@ def _temporaries_boundary(ctx, rep):
     for name, ok, c in readers:
         rep.ob('temporaries.boundary-readers', 'StringSpace.%s: permanent means addr > _temp' % name, ok, norm(c), ctx.where(c))
     rep.floor('temporaries.boundary-readers', len(readers), 2, 'comparisons with _temp')
+    ip = ctx.fn(ST + ':StringSpace.is_permanent')
+    rets_ = [r for r in own_nodes(ip) if isinstance(r, ast.Return)]
+    okb = len(rets_) == 1 and isinstance(rets_[0].value, ast.BoolOp) and isinstance(rets_[0].value.op, ast.And) and norm(rets_[0].value.values[0]) == 'self._temp is not None'
+    rep.ob('temporaries.no-boundary-means-nothing-permanent', 'is_permanent answers False while there is no boundary (a collection found no permanent string)', okb,
+           'the address is compared with None: TypeError in the statement that triggered the collection', ctx.where(ip))
     # the sentinel (lowest permanent string) is never an empty string: those share their address with the newest
     # allocated string, so re-storing one first would put the boundary above a live string
     cgf = ctx.fn(ST + ':StringSpace.collect_garbage')
@@ -281,8 +286,8 @@ def check(ctx, rep):
                 defs_ = [a for a in own_nodes(lp) if isinstance(a, ast.Assign) and norm(a.targets[0]) == v.id]
                 fresh = [a for a in defs_ if norm(a.value) == "struct.pack('<BH', *self.store(string, check_free=False))"]
                 kept = [a for a in defs_ if a not in fresh]
-                # the kept pointer is used only for a string with the same old address and length as the one just stored
-                same = all(any(f.pol and '(addr, len(string))' in f.text and '==' in f.text for f in fl_.facts(a)) for a in kept)
+                # the kept pointer is used only for a string with the same old address and length as one stored before
+                same = all(any(f.pol and '(addr, len(string))' in f.text and ('==' in f.text or ' in ' in f.text) for f in fl_.facts(a)) for a in kept)
                 ok = len(fresh) == 1 and len(kept) <= 1 and same
                 once = len(kept) == 1 and same
     rep.ob('collector.rewrites-same-view', 'every root gets the pointer of its re-stored string written into its own view', ok, '', ctx.where(cg_))
@@ -488,8 +493,10 @@ def variants(ctx):
         Va('collector-does-not-rewrite', 'break', ST,
            in_fn('StringSpace.collect_garbage', lambda fn: mu.replace_stmt(fn, mu.text_is('view[:] = pointer'), 'pass')),
            expect='collector.rewrites'),
+        Va('is-permanent-compares-with-a-missing-boundary', 'break', ST,
+           in_fn('StringSpace.is_permanent', lambda fn: mu.replace_expr(fn, mu.text_is('self._temp is not None and addr > self._temp'), 'addr > self._temp')), expect='temporaries.no-boundary'),
         Va('collector-stores-once-per-pointer', 'break', ST,
-           in_fn('StringSpace.collect_garbage', lambda fn: mu.replace_expr(fn, mu.text_is('previous is not None and previous[0] == (addr, len(string))'), 'False')),
+           in_fn('StringSpace.collect_garbage', lambda fn: mu.replace_expr(fn, mu.text_is('string and (addr, len(string)) in stored'), 'False')),
            expect='collector.one-copy-per-string'),
         Va('left-releases-on-normal-path-only', 'break', 'pcbasic/basic/values/values.py', in_fn('StringFunctions.left_', _release_inline), expect='roots.registration-released-on-every-exit'),
         Va('store-moves-before-check', 'break', ST, in_fn('StringSpace.store', _move_check_after), expect='store.check-before-move'),
